@@ -713,6 +713,11 @@ def c14(case, lines):
             p = r.split(" ")
             if k > dk and p[0] == "P":
                 return "pending: operation %s still pending when polled after the context was dropped" % p[1]
+            if k > dk and p[0] == "D" and "SocketClosed" in r:
+                # no handle operation ever reports the transport's state: what it learns once the Context is gone is that the
+                # Context is gone
+                return "variant: operation %s, pending when the Context was dropped, completes with %s; the property says ContextExited" % (
+                    p[1], " ".join(p[2:])[:80])
             if k > dk and p[0] == "D" and not ("ContextExited" in r):
                 # an operation whose request the context never processed (nothing of it reached the wire, no refusal
                 # was sent to it) cannot report anything but ContextExited
